@@ -2,6 +2,7 @@ CONSTANT MaxMods = 4
 CONSTANT MinMods = 4
 CONSTANT Spells <- OnePlain
 CONSTANT Places <- OneEarly
+CONSTANT Agains <- NoAgain
 CONSTANT Layouts <- NoSub
 INIT Init
 NEXT Next
